@@ -51,7 +51,7 @@ PROPS = {
     },
     "C11": {
         "level": "proof",
-        "units": ["cproof", "sproof", "cor_cproof", "cor_sproof", "lemmas_schnorr", "lemmas_pedersen", "lemmas_ps"], "kani": ["g1_projective_codec_validates"],
+        "units": ["cproof", "sproof", "cor_cproof", "cor_sproof", "lemmas_schnorr", "lemmas_pedersen", "lemmas_ps", "pedersen"], "kani": ["g1_projective_codec_validates"],
         "assumptions": [PER_INST, "challenge != 0 for the commitment-perturbation clause"],
         "trusted_base": CRYPTO_AXIOMS,
     },
